@@ -105,6 +105,14 @@ def rand_attrs(rng):
         if rng.random() < 0.05:
             v = bytes(rng.randrange(256) for _ in range(254 - len(k)))    # entry of exactly 255 bytes
         at[k] = v
+    if at and rng.random() < 0.15:
+        # two keys that differ in letter case only are two different keys of the map
+        k = rng.choice(sorted(at))
+        k2 = bytes(c ^ 0x20 if (65 <= c <= 90 or 97 <= c <= 122) else c for c in k)
+        if k2 != k:
+            at[k2] = rng.choice([None, b"", b"w"])
+        else:
+            at[b"Path"], at[b"path"] = b"/a", rng.choice([b"/b", None])
     return at
 
 
